@@ -67,8 +67,11 @@ while len(cases) < N:
         cases.append('(%s, %s, [%s])' % (idoc(top), tree(v0), '; '.join(ops)))
         if any('.' in n for n, _ in v0): stats['attrpath_docs'] += 1
         if len(samples) < 3: samples.append({'doc': d, 'ops': plain})
-HDR = 'From Coq Require Import List Ascii String. Import ListNotations.\nFrom E Require Import EditModel EditRun MapRun.\nOpen Scope string_scope.\n'
-OK = 'Definition ok (c : idoc * tree * list (mop * mexp * tree)) : bool := match mcheck c with None => true | Some _ => false end.\n'
+HDR = 'From Coq Require Import List Ascii String. Import ListNotations.\nFrom E Require Import EditModel EditRun MapRun EditMapSpec.\nOpen Scope string_scope.\n'
+OK = ('Definition ok (c : idoc * tree * list (mop * mexp * tree)) : bool :=\n'
+      '  match mcheck c with None => true | Some _ => false end &&\n'
+      '  (* the invariant the refinement theorem (EditMapSpec.run_refines) assumes holds of every parsed state *)\n'
+      '  match parse_doc (fst (fst c)) with Ok st0 => map_invb st0 | Err _ => false end.\n')
 write_shards(outdir, prefix, HDR, 'idoc * tree * list (mop * mexp * tree)', OK, cases, 16)
 json.dump({'stats': stats, 'keys': [], 'distinct_count': len(set(cases)),
            'rule': 'canonical F0 documents (attrpath bindings and families included) x 1-5 get/set/del on the top-level mapping; lookup result, error class and printed view compared after every call',
